@@ -171,13 +171,21 @@ func GenConfig(prop string, g *Gen, tier string) Config {
 	}
 	if g.Intn(6) == 0 {
 		// a configured KeyCompare that returns any negative/positive number, not just -1/+1
-		c.CmpScale = []int{2, 7, 1000}[g.Intn(3)]
+		c.CmpScale = []int{2, 7, 1000, -1, -3}[g.Intn(5)] // negative: a descending order
 	}
-	if g.Intn(50) == 0 && (prop == "C01" || prop == "C06" || prop == "C10" || prop == "C05" || prop == "C09" || prop == "C08") {
+	if g.Intn(50) == 0 && (prop == "C01" || prop == "C06" || prop == "C10" || prop == "C05" || prop == "C09" || prop == "C08" || prop == "C07") {
 		// one giant node: every key on layer 0 (user Key), hundreds of entries in a single node
 		c.KeyD = "userkey"
 		c.U = 700
 		c.Layers = make([]uint8, c.U)
+		if g.Intn(2) == 0 {
+			// or: a giant *interior* node, most keys one layer up, leaves hanging between them
+			for i := range c.Layers {
+				if g.Intn(7) != 0 {
+					c.Layers[i] = 1
+				}
+			}
+		}
 		c.ValD = "int"
 		c.Extra = "giant"
 	}
@@ -194,6 +202,7 @@ func GenConfig(prop string, g *Gen, tier string) Config {
 	case "C01", "C10", "C06":
 		if g.Intn(16) == 0 {
 			c.InMemory = true
+			c.CmpScale = 0 // NewInMemory takes no configuration
 			c.BF = 16
 			c.Cache = "none"
 		}
@@ -213,7 +222,7 @@ func GenConfig(prop string, g *Gen, tier string) Config {
 		if g.Intn(3) == 0 {
 			c.KeyD = "userkey"
 			c.Layers = genLayers(g, c.U)
-		} else if prop == "C04" && g.Intn(6) == 0 && c.Marshaler == "json" && !c.NoLike {
+		} else if g.Intn(6) == 0 && c.Marshaler == "json" && !c.NoLike {
 			// keys whose layer is computed from their marshaled form; some inserts run with one
 			// of those Marshal calls failing
 			c.KeyD = []string{"struct", "lstruct"}[g.Intn(2)]
@@ -1011,6 +1020,9 @@ func (s *genState) emit(kind, prop string) {
 			}
 		default:
 			op.Key = g.Intn(s.cfg.U)
+		}
+		if g.Intn(6) == 0 {
+			op.N = 1 + g.Intn(4) // that read of the probed call is served truncated, without an error
 		}
 		s.ops = append(s.ops, op)
 	case "rebf":
